@@ -57,7 +57,7 @@ where
         // The product is computed over all its a.size() + b_size - cnv_offset_hi limbs.
         let res_size: usize = (res.size() * res_base2k).div_ceil(a_base2k).max(a.size() + b_size);
         let lvl_0: usize = self.bytes_of_vec_znx_big(1, res_size);
-        let lvl_1_cnv: usize = self.cnv_by_const_apply_tmp_bytes(res_size, cnv_offset, a.size(), b_size);
+        let lvl_1_cnv: usize = self.cnv_by_const_apply_tmp_bytes(cnv_offset, res_size, a.size(), b_size);
         let lvl_1_norm: usize = self.vec_znx_big_normalize_tmp_bytes();
         let lvl_1: usize = lvl_1_cnv.max(lvl_1_norm);
 
